@@ -1017,6 +1017,12 @@ func setRequest(req *eni.LocalIPRequest, old daemon.ResourceItem) {
 	req.IPv4 = ipv4
 	req.IPv6 = ipv6
 	req.NetworkInterfaceID = eniID
+	if eniID == "" && old.ENIMAC == "" {
+		// legacy record, the id is mac.ip: the request still has to reach the eni the pod uses
+		if parts := strings.SplitN(old.ID, ".", 2); len(parts) == 2 {
+			req.NetworkInterfaceMAC = parts[0]
+		}
+	}
 }
 
 func toRPCMapping(res eni.Status) *rpc.ResourceMapping {
